@@ -354,6 +354,8 @@ class Run:
                 unknown.append(v)
         rc = 0
         os.makedirs(os.path.join(REPLAYS, self.pid), exist_ok=True)
+        for fn in os.listdir(os.path.join(REPLAYS, self.pid)):
+            os.remove(os.path.join(REPLAYS, self.pid, fn))
         if unknown:
             rc = 1
             # one VIOLATION line per distinct key
